@@ -516,13 +516,23 @@ Definition apply_to_all (st : state) (g s : nat) (t : option nat) (c : target) (
   apply_to_container st g c ctx ++ apply_to_container st s c ctx
   ++ match t with Some ti => apply_to_container st ti c ctx | None => [] end.
 
-(* APIOperation.as_strategy._apply_hooks: the case-level hooks, applied WITHOUT _should_skip_hook *)
-Definition apply_case_hooks (st : state) (di : nat) : list (hk * N) :=
+(* APIOperation.as_strategy._apply_hooks: the case-level hooks; context = HookContext(self), every hook goes
+   through _should_skip_hook (since commit 4324b099) *)
+Definition apply_case_hooks (st : state) (di : nat) (o : oper) : list (hk * N) :=
+  flat_map (fun k => map (fun f => (k, f)) (fired st (Some o) (all_by_name st di (NGen k TCase)))) kinds.
+
+Definition as_strategy_case_hooks (st : state) (g s : nat) (t : option nat) (o : oper) : list (hk * N) :=
+  apply_case_hooks st g o ++ apply_case_hooks st s o
+  ++ match t with Some ti => apply_case_hooks st ti o | None => [] end.
+
+(* the behaviour BEFORE commit 4324b099 (finding C19-F2): case-level hooks applied without looking at
+   their filters.  Kept to recognise its return. *)
+Definition apply_case_hooks_prefix (st : state) (di : nat) : list (hk * N) :=
   flat_map (fun k => map (fun f => (k, f)) (all_by_name st di (NGen k TCase))) kinds.
 
-Definition as_strategy_case_hooks (st : state) (g s : nat) (t : option nat) : list (hk * N) :=
-  apply_case_hooks st g ++ apply_case_hooks st s
-  ++ match t with Some ti => apply_case_hooks st ti | None => [] end.
+Definition as_strategy_case_hooks_prefix (st : state) (g s : nat) (t : option nat) : list (hk * N) :=
+  apply_case_hooks_prefix st g ++ apply_case_hooks_prefix st s
+  ++ match t with Some ti => apply_case_hooks_prefix st ti | None => [] end.
 
 (* BaseSchema.dispatch_hook / builder.add_examples: global, schema, local *)
 Definition dispatch_all (st : state) (g s : nat) (t : option nat) (n : hname) (ctx : option oper) : list N :=
@@ -792,8 +802,9 @@ Definition observe (fixed : bool) (scopes : list scope) (closures : list nat) (o
                        (seq 0 (length scopes))) ctxs,
    map (fun ctx => map (fun tg => apply_to_all st 0 1 t tg ctx) param_targets) ctxs,
    map (fun ctx => map (fun n => dispatch_all st 0 1 t n ctx) dispatch_names) ctxs,
-   as_strategy_case_hooks st 0 1 t,
-   map (own_chain (spec_run closures ops)) fns).
+   map (fun o => as_strategy_case_hooks st 0 1 t o) univ,
+   map (own_chain (spec_run closures ops)) fns,
+   as_strategy_case_hooks_prefix st 0 1 t).
 
 Definition aobserve (n : nat) (ops : list aop) (univ : list oper) (tests : list (option N)) :=
   let '(st, outs) := arun n ops in
@@ -806,8 +817,12 @@ Definition aobserve (n : nat) (ops : list aop) (univ : list oper) (tests : list 
 
 (* the hooks data generation applies for one container of one operation: parameter containers go through
    apply_to_all_dispatchers, the case level through APIOperation.as_strategy._apply_hooks *)
-Definition generation_hooks (st : state) (g s : nat) (t : option nat) (c : target) (ctx : option oper) : list (hk * N) :=
-  if is_case_target c then as_strategy_case_hooks st g s t else apply_to_all st g s t c ctx.
+Definition generation_hooks (st : state) (g s : nat) (t : option nat) (c : target) (o : oper) : list (hk * N) :=
+  if is_case_target c then as_strategy_case_hooks st g s t o else apply_to_all st g s t c (Some o).
+
+(* ... and before commit 4324b099 *)
+Definition generation_hooks_prefix (st : state) (g s : nat) (t : option nat) (c : target) (o : oper) : list (hk * N) :=
+  if is_case_target c then as_strategy_case_hooks_prefix st g s t else apply_to_all st g s t c (Some o).
 
 (* region predicate: the closure has nothing pending (no filter chained, flag clear) *)
 Definition closure_clean (ss : sstate) (ri : nat) : bool :=
